@@ -22,13 +22,28 @@ def run_harness(name, features=(), timeout_s=900, playback=True, extra_args=(), 
     with build.Lock("kani-" + target):
         pass    # serialise nothing but make sure the dir exists
     sh = "ulimit -v %d; exec %s" % (mem_gb * 1024 * 1024, " ".join("'%s'" % c for c in cmd))
+    # own process group: on timeout the whole tree (cargo-kani, kani-driver, cbmc) is killed, not just the shell
+    proc = subprocess.Popen(["bash", "-c", sh], cwd=KANI_DIR, env=build.ENV, stdout=subprocess.PIPE, stderr=subprocess.STDOUT, start_new_session=True)
     try:
-        p = subprocess.run(["bash", "-c", sh], cwd=KANI_DIR, env=build.ENV, stdout=subprocess.PIPE, stderr=subprocess.STDOUT, timeout=timeout_s)
-        out = p.stdout.decode(errors="replace")
+        raw, _ = proc.communicate(timeout=timeout_s)
+        out = raw.decode(errors="replace")
         status = None
-    except subprocess.TimeoutExpired as e:
-        out = (e.stdout or b"").decode(errors="replace")
+    except subprocess.TimeoutExpired:
+        import signal
+        try:
+            os.killpg(proc.pid, signal.SIGKILL)
+        except OSError:
+            pass
+        raw, _ = proc.communicate()
+        out = (raw or b"").decode(errors="replace")
         status = "timeout"
+    except BaseException:
+        import signal
+        try:
+            os.killpg(proc.pid, signal.SIGKILL)
+        except OSError:
+            pass
+        raise
     dt = time.time() - t0
     with open(log, "w") as f:
         f.write(out)
